@@ -128,6 +128,30 @@ for _pid, (_t, _x) in EXTRA.items():
     tech, text, note, ref = CLAIMED[_pid]
     CLAIMED[_pid] = (tech + _t, text + _x, note, ref)
 
+# Clauses added in rounds 3-5 (appended to technique / level text).
+EXTRA5 = {
+ "C01": ("; class-condition path rule on processLineSync (each counted class backed by its documented decision on the path); worker-forward path rule; gzip-probe must-pass-through rule; C04-a buffer discipline borrowed", " Also: a line is counted ignored only where an ignore expression answered true or the key is known empty; a worker leaves nothing it collected unsent; with -z every successful open probed the content; lines waiting in a batch are not overwritten."),
+ "C02": ("; posix-longest origin rule on the regexp back end; result-not-recycled and names-verbatim rules", " Also: under the posix flag the regexp is leftmost-longest (CompilePOSIX or Longest())."),
+ "C03": ("; csv-verbatim rule (UseCRLF never set, shadowing Write forwards its record unchanged); C06-b error-counting rules borrowed for the exit status; increment-field flow rule; memo-invalidation rule", " Also: nothing rewrites a record between the aggregate and encoding/csv; read failures always reach the count the exit status reads; the parsed increment is one field of the sample."),
+ "C05": ("; snapshot-escape rule (a slice/map field copied under the lock is not used after the unlock while the storage is updated in place); worker-forward path rule; typed stages covered by stage-writes; pool full-init typestate incl. array state", " Also: lock-protected slices are not read through an alias after the unlock; workers forward every collected match before they exit."),
+ "C06": ("; gzip-probe must-pass-through rule; walk-decision and whole-gzip-stream rules", " Also: with -z the content is always probed before an input is handed back as plain."),
+ "C07": ("; increment-field flow rule; derived-state / memo-invalidation rule", " Also: the increment parsed is the field at its position, not the rest of the sample."),
+ "C08": ("; ok-live rule (typed-argument ok results consumed on every path); quotient-descent loop form", ""),
+ "C09": ("; errors-recorded path rule on CompilerErrors.add / inherit; metacharacter-set agreement of the two scanners", " Also: an error handed to the collector is always kept."),
+ "C10": ("; touch-propagates sharpened to the wrapped GetMatch with the unmodified index; typed stage closures covered by stage-writes; shared function table copy; no state through atomics (one recorded finding)", " Also: negative lookups are forwarded as asked; typed argument wrappers keep no state."),
+ "C11": ("; rune-narrowing lint over the helper packages; left-fold who-may-call rule on the arithmetic helpers; integer-exact rule (no int -> float64 -> int round trip; found and fixed expbucket(1e15)); coalesce / decimal-base rules", " Also: characters are never classified by their low byte; arithmetic helpers are a left fold; integer helpers stay in the integers."),
+ "C12": ("; token-per-placeholder path rule on the pattern compiler", " Also: every %{..} becomes a token of its own."),
+ "C13": ("; both-directions rule (a received comparator is not consulted in both argument orders while Reverse negates); NaN-order guard rule; number-class rule", " Also: compositions of comparators do not rely on strictness that Reverse does not preserve."),
+ "C14": ("; scaled-magnitude flow rule (renderers draw Scaler.Scale results only); visible-length rule", " Also: no cell is drawn with a literal magnitude."),
+ "C16": ("; E-PANIC obligations over pkg/minijson", " Also: the JSON writer cannot index or slice out of range."),
+ "C17": ("; pool full-init typestate with array state (every element of vals assigned before use); done-only-on-miss", " Also: pooled sub-contexts carry no {0}/{1} of a previous user."),
+ "C18": ("; duration-authority flow rule (every result derives from time.ParseDuration or is an error marker); map-order analysis over the time helpers; whole-seconds-out", " Also: one parser decides what a duration is; names are not resolved by hash order."),
+ "C19": ("; binding-errors rule (failed parse stored in the wrapper, runner decides by that field); unary token agreement, const nodes, opaque groups", " Also: a non-numeric binding is recorded besides the computed value."),
+}
+for _pid, (_t, _x) in EXTRA5.items():
+    tech, text, note, ref = CLAIMED[_pid]
+    CLAIMED[_pid] = (tech + _t, text + _x, note, ref)
+
 PENDING_REASON = "static check for this property is designed in DESIGN.md §3 but not yet built in this revision of /verif; not claimed until it runs"
 
 def main():
